@@ -29,6 +29,30 @@ func TestVerifC13LegacyServer(t *testing.T) {
 			mod = func(c *Config) { c.MinVersion, c.MaxVersion = minV, maxV }
 			st.Class("source:HelloGolang")
 		}
+		if mod == nil {
+			// the caller's Config as the connection finds it: version bounds left by the application, or by an earlier
+			// connection that used the same *Config with another fingerprint (UClient does not clone the Config); the
+			// applied spec decides what is advertised AND what is accepted
+			switch rapid.IntRange(0, 3).Draw(rt, "config_history") {
+			case 0:
+				minV := rapid.SampledFrom([]uint16{VersionTLS10, VersionTLS11, VersionTLS12, VersionTLS13}).Draw(rt, "cfg_min")
+				maxV := rapid.SampledFrom([]uint16{0, VersionTLS12, VersionTLS13}).Draw(rt, "cfg_max")
+				if maxV != 0 && maxV < minV {
+					maxV = minV
+				}
+				mod = func(c *Config) { c.MinVersion, c.MaxVersion = minV, maxV }
+				st.Class("config:explicit-version-bounds")
+			case 1:
+				prev := vfGenParrot(rt, "previous_parrot")
+				mod = func(c *Config) {
+					cp0, _ := vfPipe()
+					defer cp0.Close()
+					c.OmitEmptyPsk = true
+					UClient(cp0, c, prev.ID).BuildHandshakeState()
+				}
+				st.Class("config:used-before-by-another-parrot")
+			}
+		}
 		p, err := vfPrepareClient(src, sni, rapid.Uint64().Draw(rt, "randseed"), mod)
 		if err != nil {
 			st.Violation(rt, "%s: %v", src, err)
